@@ -92,6 +92,18 @@ func (e *Engine) callFn(st *State, fr *Frame, fn *ssa.Function, args []Val, clo 
 		}
 	}
 	// 2. contracts
+	if c := e.contractFor(fn); c != nil && c.Kind == "trusted" && c.Opts["model"] != "" {
+		m := nativeModel(c.Opts["model"])
+		if m == nil {
+			panic(unsupported("unknown native model " + c.Opts["model"]))
+		}
+		usedModels["assumed (contract file): "+shortFn(fn)+" = native model "+c.Opts["model"]] = true
+		res, ok := m(e, st, fr, fn, args, in)
+		if ok {
+			e.bindResult(fr, bind, res)
+			return
+		}
+	}
 	if c := e.contractFor(fn); c != nil && c.Opts["inline"] != "true" && (fn != e.cur.fn || true) {
 		if c.Kind == "func" || c.Kind == "trusted" {
 			res := e.applyContract(st, fr, fn, c, args, in)
@@ -157,6 +169,14 @@ func (e *Engine) opaqueCall(st *State, fr *Frame, name string, sig *types.Signat
 func (e *Engine) invoke(st *State, fr *Frame, recv Val, m *types.Func, args []Val, in ssa.Instruction, bind ssa.Value) {
 	tag := recv.iTag()
 	e.oblige(st, "nilderef", e.siteName("nilinvoke", in), Not(Eq(tag, BVConst(0, 32))), in.Pos(), nil, "method call on nil interface")
+	// ghost stream model for io.Reader / io.Writer method calls, whatever the dynamic type
+	if mm := lookupIfaceModel(recv.T, m); mm != nil {
+		res, ok := mm(e, st, fr, nil, append([]Val{recv}, args...), in)
+		if ok {
+			e.bindResult(fr, bind, res)
+			return
+		}
+	}
 	if tag.Op == OConst {
 		T := typeOfTag[tag.Val]
 		e.invokeOn(st, fr, recv, T, m, args, in, bind)
@@ -167,14 +187,6 @@ func (e *Engine) invoke(st *State, fr *Frame, recv Val, m *types.Func, args []Va
 		key := n.Obj().Pkg().Path() + "::" + n.Obj().Name() + "." + m.Name()
 		if c := e.cs.ByFunc[key]; c != nil {
 			res := e.applyIfaceContract(st, fr, recv, m, c, args, in)
-			e.bindResult(fr, bind, res)
-			return
-		}
-	}
-	// model for interface methods (io.Reader.Read etc.)
-	if mm := lookupIfaceModel(recv.T, m); mm != nil {
-		res, ok := mm(e, st, fr, nil, append([]Val{recv}, args...), in)
-		if ok {
 			e.bindResult(fr, bind, res)
 			return
 		}
